@@ -51,19 +51,29 @@ fn cli_keyring(p: &mutate::Pool, seed: u64) -> String {
     CLI_KEYRINGS.lock().unwrap().push((seed, t.clone())); t
 }
 pub fn check_cli(c: &MCase) -> CheckResult {
+    use crate::cli::In;
     let p = mutate::pool(c.sel, c.pool_seed); let base = &p.files[c.m.base % p.files.len()]; let f = mutate::apply(&p, &c.m);
-    let sb = crate::cli::Sandbox::new(); sb.write("k.txt", cli_keyring(&p, c.pool_seed).as_bytes()); sb.write("in.ktl", &f);
-    let stale = c.m.ops.len() % 2 == 1; let junk = crate::gen::bytes_from(9, 400); if stale { sb.write("out.bin", &junk); }
-    let r = sb.cmd(&["decrypt", "in.ktl", "-t", &format!("id{}", base.recipient), "-o", "out.bin", "-k", "k.txt", "--env-pass"]).env("KESTREL_PASSWORD", "pool-pw").run();
-    crate::ensure!(!r.timed_out && r.signal.is_none() && matches!(r.code, Some(0) | Some(1)), "kestrel decrypt ended abnormally: {}", r.describe());
-    let mut out = sb.read("out.bin").unwrap_or_default(); if stale && out == junk { out.clear(); }
-    let authentic = p.files.iter().find(|a| a.mode == base.mode && a.recipient == base.recipient && a.masked_eq(&f));
+    let pass = base.mode == mutate::Mode::Pass;
+    // how the file reaches the tool and where the plaintext goes is part of the case: FILE argument or stdin, -o or stdout
+    let sel = c.m.base + c.m.ops.len() + c.rs.gives.len() + c.ws.accepts.len() + c.rs.then; let (via_stdin, to_stdout) = (sel % 2 == 1, (sel / 2) % 2 == 1);
+    let sb = crate::cli::Sandbox::new(); if !pass { sb.write("k.txt", cli_keyring(&p, c.pool_seed).as_bytes()); } sb.write("in.ktl", &f);
+    let stale = c.m.ops.len() % 2 == 1 && !to_stdout; let junk = crate::gen::bytes_from(9, 400); if stale { sb.write("out.bin", &junk); }
+    let rcpt = format!("id{}", base.recipient);
+    let mut a: Vec<&str> = if pass { vec!["password", "decrypt"] } else { vec!["decrypt"] };
+    if !via_stdin { a.push("in.ktl"); } if !pass { a.extend(["-t", rcpt.as_str(), "-k", "k.txt"]); } if !to_stdout { a.extend(["-o", "out.bin"]); } a.push("--env-pass");
+    let pw = if pass { String::from_utf8_lossy(&base.pw).into_owned() } else { "pool-pw".to_string() };
+    let mut cmd = sb.cmd(&a).env("KESTREL_PASSWORD", &pw); if via_stdin { cmd = cmd.stdin(In::File(sb.path("in.ktl"))); }
+    let r = cmd.run();
+    let how = format!("{}{}", if via_stdin { "file on stdin" } else { "FILE argument" }, if to_stdout { ", plaintext to stdout" } else { ", -o" });
+    crate::ensure!(!r.timed_out && r.signal.is_none() && matches!(r.code, Some(0) | Some(1)), "kestrel decrypt ({}) ended abnormally: {}", how, r.describe());
+    let mut out = if to_stdout { r.stdout.clone() } else { sb.read("out.bin").unwrap_or_default() }; if stale && out == junk { out.clear(); }
+    let authentic = p.files.iter().find(|a| a.mode == base.mode && a.recipient == base.recipient && a.pw == base.pw && a.masked_eq(&f));
     if r.code == Some(0) {
-        let a = authentic.ok_or_else(|| format!("`kestrel decrypt` exited 0 for a file that is not authentic outside counter fields ({} bytes presented, {} bytes written)", f.len(), out.len()))?;
-        crate::ensure!(out == a.plain, "`kestrel decrypt` exited 0 but wrote {} bytes, the complete plaintext has {}", out.len(), a.plain.len());
-        crate::ensure!(r.stderr_s().contains(&format!("File from: id{}", a.sender)), "sender line does not name the file's sender: {}", r.stderr_s());
+        let a = authentic.ok_or_else(|| format!("`kestrel {}decrypt` ({}) exited 0 for a file that is not authentic outside counter fields ({} bytes presented, {} bytes written)", if pass { "password " } else { "" }, how, f.len(), out.len()))?;
+        crate::ensure!(out == a.plain, "`kestrel {}decrypt` ({}) exited 0 but delivered {} bytes, the complete plaintext has {}", if pass { "password " } else { "" }, how, out.len(), a.plain.len());
+        if !pass { crate::ensure!(r.stderr_s().contains(&format!("File from: id{}", a.sender)), "sender line does not name the file's sender: {}", r.stderr_s()); }
     }
-    ok(authentic.is_none(), format!("cli/{}{}", mutate::classify(&p, &c.m), if r.code == Some(0) { "(accepted)" } else { "" }))
+    ok(authentic.is_none(), format!("cli/{}{}/{}{}", if pass { "pass/" } else { "" }, mutate::classify(&p, &c.m), if via_stdin { "stdin" } else { "file" }, if r.code == Some(0) { "(accepted)" } else { "" }))
 }
 
 pub fn run(ctx: &Ctx) {
@@ -107,5 +117,12 @@ pub fn run(ctx: &Ctx) {
     }
     ctx.shrink_iters.store(30, std::sync::atomic::Ordering::Relaxed);
     ctx.pbt("cli_decrypt_mutants", ctx.n(240, 6_000), || strat(PoolSel::KeySmall, seed, 3, 100), check_cli);
+    ctx.pbt("cli_password_decrypt_mutants", ctx.n(120, 3_000), || strat(PoolSel::Pass, seed, 3, 100), check_cli);
+    // every one-byte and dictionary extension, each truncation class, of one file per mode, through both input wirings
+    { let mut v = Vec::new(); for sel in [PoolSel::Pass, PoolSel::KeySmall] { let pl = mutate::pool(sel, seed); let n = pl.files[0].bytes.len();
+        let mut ms: Vec<Mutant> = mutate::TAILS.iter().map(|t| Mutant { base: 0, ops: vec![mutate::Op::Append { bytes: t.to_vec() }] }).collect();
+        ms.extend([n - 1, n - 16, n - 17, pl.files[0].hdr, pl.files[0].hdr + 16].into_iter().map(|len| Mutant { base: 0, ops: vec![mutate::Op::Truncate { len }] }));
+        for m in ms { for k in 0..4usize { let mut c = mk(sel, seed, m.clone(), true); c.rs = RSched { gives: vec![], then: k }; v.push(c); } } }
+      ctx.sse_vec("cli_extensions_and_truncations", "a password-mode and a key-mode file with each of 14 dictionary tails appended and 5 truncations, x {FILE argument, stdin} x {-o, stdout}", v, check_cli); }
     ctx.put("accepted_mutants", serde_json::json!(ACCEPTED.load(Ordering::Relaxed)));
 }
